@@ -651,6 +651,13 @@ func (ndb *nodeDB) DeleteVersionsFrom(fromVersion int64) error {
 	}
 
 	// NOTICE: we don't touch fast node indexes here, because it'll be rebuilt later because of version mismatch.
+	// Make sure the mismatch is detected even if the same version number is committed again
+	// while the fast index is disabled.
+	if ndb.hasUpgradedToFastStorage() {
+		if err := ndb.SetFastStorageVersionToBatch(0); err != nil {
+			return err
+		}
+	}
 
 	ndb.resetLatestVersion(dumpFromVersion - 1)
 
